@@ -129,6 +129,12 @@ Theorem C16_best_pivots_legal : S_best_pivots_legal.
 Proof. exact best_pivots_legal. Qed.
 Print Assumptions C16_best_pivots_legal.
 
+(** the boolean test applied to the pivots OBSERVED in a run (reported by a guarded call-out
+    of the code) decides the legality condition of the SCC step of the symmetric machine *)
+Theorem C16_legal_pivots_symb_spec : S_legal_pivots_symb_spec.
+Proof. exact legal_pivots_symb_spec. Qed.
+Print Assumptions C16_legal_pivots_symb_spec.
+
 (** non-vacuity: the documentation's example graph, a legal run reaching the exit of level
     All, accepted by the checker *)
 Example C16_nonvacuous :
@@ -314,6 +320,11 @@ Print Assumptions C16_machine_exact_dir.
 Theorem C16_best_pivots_dir_legal : S_best_pivots_dir_legal.
 Proof. exact best_pivots_dir_legal. Qed.
 Print Assumptions C16_best_pivots_dir_legal.
+
+(** the boolean test applied to the pivots OBSERVED in a directed run decides legal_pivots *)
+Theorem C16_legal_pivotsb_spec : S_legal_pivotsb_spec.
+Proof. exact legal_pivotsb_spec. Qed.
+Print Assumptions C16_legal_pivotsb_spec.
 
 (** the numbering of the model of sccs::tarjan labels the strongly connected components,
     uses every index and is reverse topological: the hypotheses above are theorems for it *)
